@@ -36,6 +36,8 @@ var (
 	c12EcCalls    int
 	c12EcHash     []byte
 	c12EcSig      []byte
+	c12EcPub      []byte
+	c12EcFailed   bool
 	c12HashArgs   [][]interface{}
 	c12errRecover = errors.New("c12: public key recovery failed")
 )
@@ -47,11 +49,29 @@ func c12Ecrecover(hash, sig []byte) ([]byte, error) {
 	c12EcHash = append([]byte(nil), hash...)
 	c12EcSig = append([]byte(nil), sig...)
 	out := vs.UF("ecrecover", 65, hash, sig)
+	c12EcPub, c12EcFailed = nil, true
 	if out[0]&1 != 0 {
 		return nil, c12errRecover
 	}
 	out[0] = 4
+	c12EcPub, c12EcFailed = append([]byte(nil), out...), false
 	return out, nil
+}
+
+// c12Recovery: what public-key recovery over (hash, sig) yields.  Under the
+// engine this is the record of the single call the code under test made (after
+// asserting that it was made with exactly these arguments) - a second
+// application with differently built arguments would leave the equality of the
+// arguments to the solver's congruence closure; natively it is a real call.
+func c12Recovery(hash, sig []byte, calls int, ecHash, ecSig, ecPub []byte, ecFailed bool) (pub []byte, failed bool) {
+	if vs.Symbolic() {
+		vs.Assert(calls == 1, "exactly one public-key recovery")
+		vs.Assert(bytes.Equal(ecHash, hash), "recovery over the signer's signing hash of this transaction")
+		vs.Assert(bytes.Equal(ecSig, sig), "recovery over exactly pad32(R) || pad32(S) || recid")
+		return ecPub, ecFailed
+	}
+	p, err := crypto.Ecrecover(hash, sig)
+	return p, err != nil
 }
 
 // crypto.Keccak256
@@ -164,9 +184,11 @@ func c12Signer(kind int, chain *big.Int) Signer {
 	return NewEIP155Signer(chain)
 }
 
-// c12Chain: an arbitrary positive chain id below 2^256 (so it also exceeds 8 and 64 bits).
+// c12Chain: an arbitrary positive chain id of up to "cbytes" bytes (suite
+// parameter; 9 bytes already exceed 8 and 64 bits).  Built from bytes so that
+// in bit-vector mode the high bits are structurally zero.
 func c12Chain(name string) *big.Int {
-	c := vs.BigU(name, 256)
+	c := new(big.Int).SetBytes(vs.BytesN(name, vs.Param("cbytes")))
 	vs.Assume(c.Sign() > 0)
 	return c
 }
@@ -194,25 +216,48 @@ func c12Content() txdata {
 }
 
 // c12SignedTx: content plus arbitrary signature values.  V is any natural
-// number below 2^258 (the RLP and JSON decoders produce no negative integers);
+// number of up to "vbytes" bytes (the RLP and JSON decoders produce no negative integers);
 // R and S are arbitrary integers - except that values with leading zero bytes
 // (1 <= x < 2^248) are left to VerifC12_RecoverPlainPadding, because every
 // (len R.Bytes(), len S.Bytes()) pair is a separate path.
 func c12SignedTx() *Transaction {
 	d := c12Content()
-	d.V = vs.BigU("V", 258)
+	d.V, _ = c12V()
 	d.R = vs.Big("R")
 	d.S = vs.Big("S")
-	vs.Assume(d.R.Sign() <= 0 || d.R.Cmp(c12two248) >= 0)
-	vs.Assume(d.S.Sign() <= 0 || d.S.Cmp(c12two248) >= 0)
+	vs.Assume(c12Any(d.R.Sign() <= 0, d.R.Cmp(c12two248) >= 0))
+	vs.Assume(c12Any(d.S.Sign() <= 0, d.S.Cmp(c12two248) >= 0))
 	return &Transaction{data: d}
 }
 
 var c12two248 = new(big.Int).Lsh(big.NewInt(1), 248)
+var c12two64 = new(big.Int).Lsh(big.NewInt(1), 64)
+
+// c12V: any natural number of up to "vbytes" bytes, as a structural case split:
+// below 2^64 it is built from a uint64 (the code under test switches to machine
+// words there), otherwise from bytes.
+func c12V() (V *big.Int, small bool) {
+	if vs.Choice("vsize", 2) == 0 {
+		return new(big.Int).SetUint64(vs.U64("V64")), true
+	}
+	V = new(big.Int).SetBytes(vs.BytesN("V", vs.Param("vbytes")))
+	vs.Assume(V.Cmp(c12two64) >= 0)
+	return V, false
+}
+
+// c12VInt: the same case split for integer mode (V below 2^258).
+func c12VInt() (V *big.Int, small bool) {
+	if vs.Choice("vsize", 2) == 0 {
+		return new(big.Int).SetUint64(vs.U64("V64")), true
+	}
+	V = vs.BigU("V", 258)
+	vs.Assume(V.Cmp(c12two64) >= 0)
+	return V, false
+}
 
 // c12Recid: the recovery id the signer has to derive from V (may be out of range).
 func c12Recid(kind int, chain, V *big.Int) (recid *big.Int, protected bool) {
-	unprot := V.Cmp(big.NewInt(27)) == 0 || V.Cmp(big.NewInt(28)) == 0
+	unprot := c12Any(V.Cmp(big.NewInt(27)) == 0, V.Cmp(big.NewInt(28)) == 0)
 	if kind != c12EIP155 || unprot {
 		return new(big.Int).Sub(V, big.NewInt(27)), false
 	}
@@ -222,7 +267,29 @@ func c12Recid(kind int, chain, V *big.Int) (recid *big.Int, protected bool) {
 	return r, true
 }
 
-func c12InRange(x *big.Int) bool { return x.Sign() > 0 && x.Cmp(c12N) < 0 }
+func c12InRange(x *big.Int) bool { return c12All(x.Sign() > 0, x.Cmp(c12N) < 0) }
+
+// c12All / c12Any: conjunction / disjunction without short-circuit branches
+// (each "if" is a pure diamond, merged by the engine instead of forking).
+func c12All(conds ...bool) bool {
+	n := 0
+	for _, c := range conds {
+		if c {
+			n++
+		}
+	}
+	return n == len(conds)
+}
+
+func c12Any(conds ...bool) bool {
+	n := 0
+	for _, c := range conds {
+		if c {
+			n++
+		}
+	}
+	return n > 0
+}
 
 // c12Complete (native runs only): make (R,S) a real signature over the signing
 // hash with recovery id recid, S staying on its side of N/2.  Only when the
@@ -234,6 +301,9 @@ func c12Complete(signer Signer, tx *Transaction, recid *big.Int) {
 	}
 	high := S.Cmp(c12HalfN) > 0
 	h := signer.Hash(tx)
+	if _, is155 := signer.(EIP155Signer); is155 && !tx.Protected() {
+		h = HomesteadSigner{}.Hash(tx)
+	}
 	for d := int64(1); d < 256; d++ {
 		prv, _ := btcec.PrivKeyFromBytes(big.NewInt(d).FillBytes(make([]byte, 32)))
 		sig, err := crypto.Sign(h[:], prv)
@@ -252,12 +322,14 @@ func c12Complete(signer Signer, tx *Transaction, recid *big.Int) {
 	}
 }
 
-// c12Sig: R || S || recid as 65 bytes (values known to be in range).
+// c12Sig: R || S || recid as 65 bytes (values known to be in range, recid 0 or 1).
 func c12Sig(R, S, recid *big.Int) []byte {
 	sig := make([]byte, 65)
 	R.FillBytes(sig[0:32])
 	S.FillBytes(sig[32:64])
-	sig[64] = byte(recid.Uint64())
+	if recid.Sign() != 0 {
+		sig[64] = 1
+	}
 	return sig
 }
 
@@ -270,10 +342,7 @@ func VerifC12_ValidateSig() {
 	r, s := vs.Big("r"), vs.Big("s")
 	hs := vs.Bool("homestead")
 	got := crypto.ValidateSignatureValues(v, r, s, hs)
-	want := v <= 1 && c12InRange(r) && c12InRange(s)
-	if hs && s.Cmp(c12HalfN) > 0 {
-		want = false
-	}
+	want := c12All(v <= 1, c12InRange(r), c12InRange(s), c12Any(!hs, s.Cmp(c12HalfN) <= 0))
 	vs.Observe("got", got)
 	vs.Assert(got == want, "ValidateSignatureValues == (v in {0,1}, 1<=r,s<N, homestead => s<=N/2)")
 }
@@ -281,16 +350,26 @@ func VerifC12_ValidateSig() {
 // VerifC12_VArithmetic: Protected() and ChainId() for every V: unprotected iff
 // V in {27,28}; for V >= 35 the chain id c satisfies V in {2c+35, 2c+36}.
 func VerifC12_VArithmetic() {
-	V := vs.BigU("V", 258)
+	V, small := c12VInt()
 	tx := &Transaction{data: txdata{V: V}}
 	prot := tx.Protected()
-	legacy := V.Cmp(big.NewInt(27)) == 0 || V.Cmp(big.NewInt(28)) == 0
+	legacy := c12Any(V.Cmp(big.NewInt(27)) == 0, V.Cmp(big.NewInt(28)) == 0)
 	vs.Assert(prot == !legacy, "Protected() iff V not in {27,28}")
 	c := tx.ChainId()
 	vs.Observe("protected", prot)
 	vs.Observe("chainid", c)
 	if legacy {
 		vs.Assert(c.Sign() == 0, "legacy V has chain id 0")
+		return
+	}
+	if small {
+		// machine-word case: state the same relation on uint64
+		v := V.Uint64()
+		if v >= 35 {
+			vs.Assert(c.IsUint64(), "chain id of a 64-bit V is a 64-bit number")
+			cc := c.Uint64()
+			vs.Assert(cc <= (1<<63)-18 && (v == 2*cc+35 || v == 2*cc+36), "V in {2c+35, 2c+36} for c = ChainId() (64-bit V)")
+		}
 		return
 	}
 	if V.Cmp(big.NewInt(35)) >= 0 {
@@ -317,11 +396,17 @@ func VerifC12_SenderAccepts() {
 	R, S := tx.data.R, tx.data.S
 	c12EcCalls, c12HashArgs = 0, nil
 	addr, err := signer.Sender(tx)
-	calls, ecHash, ecSig := c12EcCalls, c12EcHash, c12EcSig
+	calls, ecHash, ecSig, ecPub, ecFailed := c12EcCalls, c12EcHash, c12EcSig, c12EcPub, c12EcFailed
 
-	recidOK := recid.Sign() == 0 || recid.Cmp(big.NewInt(1)) == 0
-	rangeOK := c12InRange(R) && c12InRange(S)
+	recidOK := c12Any(recid.Sign() == 0, recid.Cmp(big.NewInt(1)) == 0)
+	rangeOK := c12All(c12InRange(R), c12InRange(S))
 	lowS := S.Cmp(c12HalfN) <= 0
+	// a legacy (V = 27/28) transaction under the EIP-155 signer is checked by the
+	// Homestead rules: Homestead signing hash, low S.
+	hasher := signer
+	if kind == c12EIP155 && !protected {
+		hasher = HomesteadSigner{}
+	}
 	if err == nil {
 		vs.Reach("accept")
 		vs.Assert(recidOK, "accepted: V encodes recovery id 0/1 (and, if protected, the signer's chain id)")
@@ -330,15 +415,9 @@ func VerifC12_SenderAccepts() {
 			vs.Known("C12-eip155-high-s", kind == c12EIP155 && protected && !lowS)
 			vs.Assert(lowS, "accepted by Homestead/EIP-155 signer: S <= N/2")
 		}
-		h := signer.Hash(tx)
-		sig := c12Sig(R, S, recid)
-		if vs.Symbolic() {
-			vs.Assert(calls == 1, "accepted: exactly one public-key recovery")
-			vs.Assert(bytes.Equal(ecHash, h[:]), "accepted: recovery over the signer's signing hash of this transaction")
-			vs.Assert(bytes.Equal(ecSig, sig), "accepted: recovery over exactly R || S || recid")
-		}
-		pub, e2 := crypto.Ecrecover(h[:], sig)
-		vs.Assert(e2 == nil && len(pub) == 65, "accepted: recovery of (hash, R||S||recid) succeeds")
+		h := hasher.Hash(tx)
+		pub, failed := c12Recovery(h[:], c12Sig(R, S, recid), calls, ecHash, ecSig, ecPub, ecFailed)
+		vs.Assert(!failed && len(pub) == 65, "accepted: recovery of (hash, R||S||recid) succeeds")
 		want := common.BytesToAddress(crypto.Keccak256(pub[1:])[12:])
 		vs.Assert(addr == want, "accepted: sender is the address of the recovered key")
 		return
@@ -346,9 +425,9 @@ func VerifC12_SenderAccepts() {
 	vs.Reach("reject")
 	if recidOK && rangeOK {
 		if kind == c12Frontier || lowS {
-			h := signer.Hash(tx)
-			_, e2 := crypto.Ecrecover(h[:], c12Sig(R, S, recid))
-			vs.Assert(e2 != nil, "rejected although V, R, S are valid and the key is recoverable")
+			h := hasher.Hash(tx)
+			_, failed := c12Recovery(h[:], c12Sig(R, S, recid), calls, ecHash, ecSig, ecPub, ecFailed)
+			vs.Assert(failed, "rejected although V, R, S are valid and the key is recoverable")
 		}
 	}
 }
@@ -360,41 +439,222 @@ func VerifC12_SenderAccepts() {
 func VerifC12_RecoverPlainPadding() {
 	R, S := vs.BigU("R", 256), vs.BigU("S", 256)
 	lo := new(big.Int).Lsh(big.NewInt(1), uint(8*(vs.Param("minlen")-1)))
-	vs.Assume(R.Cmp(lo) >= 0 && S.Cmp(lo) >= 0)
+	vs.Assume(c12All(R.Cmp(lo) >= 0, S.Cmp(lo) >= 0))
 	recid := vs.U8("recid")
 	vs.Assume(recid <= 1)
 	homestead := vs.Bool("homestead")
 	var hash common.Hash
 	copy(hash[:], vs.BytesN("hash", 32))
 	Vb := new(big.Int).SetUint64(27 + uint64(recid))
-	if !vs.Symbolic() {
-		// natively: a real signature over hash with this recovery id keeps the leading
-		// zero bytes only by luck, so the padding is compared on the solver's values
-		// through the sender address of the padded signature instead (below).
-	}
 	c12EcCalls = 0
 	addr, err := recoverPlain(hash, R, S, Vb, homestead)
-	calls, ecHash, ecSig := c12EcCalls, c12EcHash, c12EcSig
-	valid := c12InRange(R) && c12InRange(S)
-	if homestead && S.Cmp(c12HalfN) > 0 {
-		valid = false
-	}
+	calls, ecHash, ecSig, ecPub, ecFailed := c12EcCalls, c12EcHash, c12EcSig, c12EcPub, c12EcFailed
+	valid := c12All(c12InRange(R), c12InRange(S), c12Any(!homestead, S.Cmp(c12HalfN) <= 0))
 	sig := make([]byte, 65)
 	R.FillBytes(sig[0:32])
 	S.FillBytes(sig[32:64])
 	sig[64] = recid
-	pub, e2 := crypto.Ecrecover(hash[:], sig)
 	if err != nil {
 		vs.Reach("reject")
-		vs.Assert(!valid || e2 != nil, "rejected although R, S are valid and the key is recoverable")
+		if valid {
+			_, failed := c12Recovery(hash[:], sig, calls, ecHash, ecSig, ecPub, ecFailed)
+			vs.Assert(failed, "rejected although R, S are valid and the key is recoverable")
+		}
 		return
 	}
 	vs.Reach("accept")
 	vs.Assert(valid, "accepted: R, S in range")
-	if vs.Symbolic() {
-		vs.Assert(calls == 1 && bytes.Equal(ecHash, hash[:]), "one recovery over the given hash")
-		vs.Assert(bytes.Equal(ecSig, sig), "recovery over exactly pad32(R) || pad32(S) || recid")
-	}
-	vs.Assert(e2 == nil && len(pub) == 65, "recovery of the padded signature succeeds")
+	pub, failed := c12Recovery(hash[:], sig, calls, ecHash, ecSig, ecPub, ecFailed)
+	vs.Assert(!failed && len(pub) == 65, "recovery of the padded signature succeeds")
 	vs.Assert(addr == common.BytesToAddress(crypto.Keccak256(pub[1:])[12:]), "sender is the address of the key recovered from the padded signature")
+}
+
+// c12Key (native runs only): a deterministic private key.
+func c12Key(seed uint8) *btcec.PrivateKey {
+	prv, _ := btcec.PrivKeyFromBytes(big.NewInt(int64(seed) + 1).FillBytes(make([]byte, 32)))
+	return prv
+}
+
+func c12SameContent(a, b *txdata) bool {
+	same := a.AccountNonce == b.AccountNonce && a.GasLimit == b.GasLimit
+	if a.Price.Cmp(b.Price) != 0 || a.Amount.Cmp(b.Amount) != 0 {
+		same = false
+	}
+	if !bytes.Equal(a.Payload, b.Payload) {
+		same = false
+	}
+	if (a.Recipient == nil) != (b.Recipient == nil) {
+		return false
+	}
+	if a.Recipient != nil && !bytes.Equal(a.Recipient[:], b.Recipient[:]) {
+		same = false
+	}
+	return same
+}
+
+// VerifC12_SignRoundTrip: for every 65-byte signature [R || S || recid] and every
+// signer, WithSignature stores R, S and V = 27+recid (35+2c+recid for EIP-155,
+// any chain id c) without touching the content, the result is protected iff the
+// signer is EIP-155 and carries chain id c, and Sender(signer, signed) recovers
+// over exactly (signer.Hash(unsigned tx), the given 65 bytes).
+// (R, S with leading zero bytes: see VerifC12_RecoverPlainPadding.)
+func VerifC12_SignRoundTrip() {
+	kind := vs.Choice("signer", 3)
+	chain := c12Chain("chain")
+	signer := c12Signer(kind, chain)
+	tx := &Transaction{data: c12Content()}
+	seed := vs.U8("keyseed")
+	h := signer.Hash(tx)
+	sig := vs.BytesN("sig", 65)
+	vs.Assume(c12All(sig[64] <= 1, sig[0] != 0, sig[32] != 0))
+	if !vs.Symbolic() {
+		// natively: a real signature by key "keyseed", on the same side of N/2 as the solver's
+		high := new(big.Int).SetBytes(sig[32:64]).Cmp(c12HalfN) > 0
+		sig, _ = crypto.Sign(h[:], c12Key(seed))
+		if high {
+			new(big.Int).Sub(c12N, new(big.Int).SetBytes(sig[32:64])).FillBytes(sig[32:64])
+			sig[64] ^= 1
+		}
+	}
+	signed, err := tx.WithSignature(signer, sig)
+	vs.Assert(err == nil && signed != nil, "WithSignature succeeds on a 65-byte signature")
+	vs.Assert(c12SameContent(&signed.data, &tx.data), "WithSignature leaves the content unchanged")
+	r, s := new(big.Int).SetBytes(sig[:32]), new(big.Int).SetBytes(sig[32:64])
+	vs.Assert(signed.data.R.Cmp(r) == 0 && signed.data.S.Cmp(s) == 0, "R, S are the big-endian halves of the signature")
+	wantV := new(big.Int).SetUint64(27 + uint64(sig[64]))
+	if kind == c12EIP155 {
+		wantV.SetUint64(35 + uint64(sig[64]))
+		wantV.Add(wantV, chain)
+		wantV.Add(wantV, chain)
+	}
+	vs.Assert(signed.data.V.Cmp(wantV) == 0, "V = 27+recid, or 35+2*chainid+recid for EIP-155")
+	vs.Assert(signed.Protected() == (kind == c12EIP155), "protected iff signed by the EIP-155 signer")
+	if kind == c12EIP155 {
+		vs.Assert(signed.ChainId().Cmp(chain) == 0, "ChainId() of the signed transaction is the signer's")
+	}
+	c12EcCalls = 0
+	addr, err := Sender(signer, signed)
+	calls, ecHash, ecSig, ecPub, ecFailed := c12EcCalls, c12EcHash, c12EcSig, c12EcPub, c12EcFailed
+	valid := c12All(c12InRange(r), c12InRange(s))
+	lowS := s.Cmp(c12HalfN) <= 0
+	if err != nil {
+		vs.Reach("reject")
+		if valid && (kind == c12Frontier || lowS) {
+			_, failed := c12Recovery(h[:], sig, calls, ecHash, ecSig, ecPub, ecFailed)
+			vs.Assert(failed, "rejected although the signature values are valid and the key is recoverable")
+		}
+		return
+	}
+	vs.Reach("accept")
+	vs.Assert(valid, "accepted: 1 <= R,S < N")
+	if kind != c12Frontier {
+		vs.Known("C12-eip155-high-s", kind == c12EIP155 && !lowS)
+		vs.Assert(lowS, "accepted by Homestead/EIP-155 signer: S <= N/2")
+	}
+	pub, failed := c12Recovery(h[:], sig, calls, ecHash, ecSig, ecPub, ecFailed)
+	vs.Assert(!failed && len(pub) == 65, "accepted: recovery over (signing hash of the unsigned transaction, the given signature)")
+	vs.Assert(addr == common.BytesToAddress(crypto.Keccak256(pub[1:])[12:]), "sender is the address of the recovered key")
+	if !vs.Symbolic() {
+		vs.Assert(addr == crypto.PubkeyToAddress(c12Key(seed).PubKey()), "sender is the address of the signing key")
+	}
+}
+
+// VerifC12_HashBindsFields: two transactions and two signers of one kind: the
+// value lists handed to the hash by signer.Hash are equal only if nonce, gas
+// price, gas limit, recipient, value, payload - and for EIP-155 the chain id -
+// are all equal (so under an injective hash a change of any signed field
+// changes the digest), and equal inputs give equal digests.  Natively the same
+// statement is evaluated on the real digests.
+func VerifC12_HashBindsFields() {
+	kind := vs.Choice("signer", 3)
+	cA, cB := c12Chain("chain"), c12Chain("chain")
+	sA, sB := c12Signer(kind, cA), c12Signer(kind, cB)
+	dA, dB := c12Content(), c12Content()
+	txA, txB := &Transaction{data: dA}, &Transaction{data: dB}
+	same := c12SameContent(&dA, &dB)
+	if kind == c12EIP155 && cA.Cmp(cB) != 0 {
+		same = false
+	}
+	c12HashArgs = nil
+	hA, hB := sA.Hash(txA), sB.Hash(txB)
+	if vs.Symbolic() {
+		vs.Assert(len(c12HashArgs) == 2, "one hash per call")
+		vs.Assert(c12ArgsEqual(c12HashArgs[0], c12HashArgs[1]) == same, "hash inputs are equal iff all signed fields (and chain id) are equal")
+	} else {
+		vs.Assert((hA == hB) == same, "signing hashes are equal iff all signed fields (and chain id) are equal")
+	}
+	if same {
+		vs.Reach("same")
+	} else {
+		vs.Reach("different")
+	}
+}
+
+// VerifC12_SignerEqual: Equal holds exactly for the same signer kind and, for
+// EIP-155, the same chain id (any two chain ids).
+func VerifC12_SignerEqual() {
+	k1, k2 := vs.Choice("signer", 3), vs.Choice("signer", 3)
+	c1, c2 := c12Chain("chain"), c12Chain("chain")
+	s1, s2 := c12Signer(k1, c1), c12Signer(k2, c2)
+	same := k1 == k2
+	if k1 == c12EIP155 && c1.Cmp(c2) != 0 {
+		same = false
+	}
+	vs.Observe("equal", s1.Equal(s2))
+	vs.Assert(s1.Equal(s2) == same && s2.Equal(s1) == same, "Equal iff same signer kind (and chain id)")
+}
+
+// VerifC12_SenderCache: after Sender(s1, tx) has possibly cached its result,
+// Sender(s2, tx) returns exactly what s2 derives from an uncached copy - for all
+// signer-kind pairs, equal and different chain ids, every form of V relative to
+// the two chain ids, and arbitrary in-range R, S (full length).  The V forms and
+// the two chain ids are concrete here (the V arithmetic itself is
+// VerifC12_SenderAccepts' subject).
+func VerifC12_SenderCache() {
+	k1, k2 := vs.Choice("signer", 3), vs.Choice("signer", 3)
+	ids := []*big.Int{big.NewInt(61717561), new(big.Int).Add(c12two64, big.NewInt(5))}
+	c1 := ids[0]
+	c2 := ids[vs.Choice("chain2", 2)]
+	s1, s2 := c12Signer(k1, c1), c12Signer(k2, c2)
+	d := c12Content()
+	vform := vs.Choice("vform", 6)
+	switch vform {
+	case 0:
+		d.V = big.NewInt(27)
+	case 1:
+		d.V = big.NewInt(28)
+	case 2:
+		d.V = new(big.Int).Add(new(big.Int).Lsh(ids[0], 1), big.NewInt(35))
+	case 3:
+		d.V = new(big.Int).Add(new(big.Int).Lsh(ids[0], 1), big.NewInt(36))
+	case 4:
+		d.V = new(big.Int).Add(new(big.Int).Lsh(ids[1], 1), big.NewInt(35))
+	default:
+		d.V = big.NewInt(100)
+	}
+	d.R, d.S = vs.BigU("R", 256), vs.BigU("S", 256)
+	vs.Assume(c12All(d.R.Cmp(c12two248) >= 0, d.R.Cmp(c12N) < 0, d.S.Cmp(c12two248) >= 0, d.S.Cmp(c12N) < 0))
+	tx := &Transaction{data: d}
+	if !vs.Symbolic() {
+		recid, _ := c12Recid(k1, c1, tx.data.V)
+		c12Complete(s1, tx, recid)
+	}
+	same := k1 == k2
+	if k1 == c12EIP155 && c1.Cmp(c2) != 0 {
+		same = false
+	}
+	fresh := &Transaction{data: tx.data}
+	_, e1 := Sender(s1, tx)
+	a2, e2 := Sender(s2, tx)
+	a3, e3 := s2.Sender(fresh)
+	if e1 == nil {
+		vs.Reach("cached")
+		if !same {
+			vs.Reach("cached-other-signer")
+		}
+	}
+	vs.Assert((e2 == nil) == (e3 == nil), "cached and uncached derivation agree on acceptance")
+	if e2 == nil {
+		vs.Assert(a2 == a3, "cached and uncached derivation agree on the sender")
+	}
 }
